@@ -4,20 +4,25 @@
            became of src (Merge filters it in place), or a panic.
    KSet:   resource.NewValue(WithInitialValue stored, WithWritableFields resw).Set(written,
            WithUpdateMask um, WithMoreUpdateMask moreu, WithResetMask rm, WithMoreWritableFields more,
-           WithAllFieldsWritable) — (more / moreu = None when the option is not used; moreu is always built
-           valid) —
+           WithAllFieldsWritable) — (more / moreu = None when the option is not used; mtag <> 0 also when a
+           path of moreu is corrupt and um is not nil) —
            observed: code, returned message, the next Get.
    mtag / rtag: how the generator built the update / reset mask from the Go descriptor (0 = every path
    valid by construction, k > 0 = one path corrupted in way k). *)
 From SC Require Import Base.Prelude Msg.Msg Msg.Schema Msg.Path Msg.FmUtils Msg.ProtoOps
-  Masks.Get Masks.Update Gen.Schema.
+  Masks.Get Masks.Update Masks.Options Gen.Schema.
 
 Inductive sobs := SRet (ret : option value) (next : value) | SPanic.
 
 Inductive c05case :=
 | KMerge (ty : string) (um wm rm : mask) (mtag rtag : Z) (dst src : value) (code : Z) (obs : option mres)
 | KSet (ty : string) (allw : bool) (resw more um moreu rm : mask) (mtag rtag : Z)
-       (stored written : value) (code : Z) (obs : sobs).
+       (stored written : value) (code : Z) (obs : sobs)
+(* KOpts: resource.NewValue(WithInitialValue stored, WithWritableFields resw).Set(written, opts...) with a LIST
+   of mask options applied in order (Masks/Options.v); mtag / rtag: the generator's own reading of which
+   update / reset paths are in force and whether one of them is corrupt *)
+| KOpts (ty : string) (resw : mask) (opts : list wopt) (mtag rtag : Z)
+        (stored written : value) (code : Z) (obs : sobs).
 
 Definition mres_equiv (a b : mres) : bool :=
   match a, b with
@@ -38,6 +43,13 @@ Definition agrees (c : c05case) : bool :=
       end
   | KSet ty allw resw more um moreu rm _ _ stored written code obs =>
       match write the_schema ty allw resw more (effective_update um moreu) rm stored written, obs with
+      | WErr c, SRet None next => (code =? c) && veq next stored
+      | WOk d, SRet (Some r) next => (code =? code_ok) && veq r d && veq next d
+      | WPanic, SPanic => true
+      | _, _ => false
+      end
+  | KOpts ty resw opts _ _ stored written code obs =>
+      match write_opts the_schema ty resw opts stored written, obs with
       | WErr c, SRet None next => (code =? c) && veq next stored
       | WOk d, SRet (Some r) next => (code =? code_ok) && veq r d && veq next d
       | WPanic, SPanic => true
@@ -161,6 +173,32 @@ Definition expected_code (um weff : mask) (mtag rtag : Z) (rm : mask) : Z :=
   | None => if (rtag =? 0) then code_ok else code_internal
   end.
 
+(* what a list of options MEANS, read right to left (not the fold the library and the model perform): the
+   LAST WithUpdateMask and the extra update paths given after it; the last WithResetMask; all fields
+   writable if the option occurs anywhere; every extra writable path wherever it was given *)
+Fixpoint spec_um_opts (opts : list wopt) : mask :=
+  match opts with
+  | [] => None
+  | o :: r =>
+      if existsb is_update_opt r then spec_um_opts r else
+      match o with
+      | OUpdateMask (Some ps) => Some (ps ++ flat_map more_update_paths r)
+      | _ => None
+      end
+  end.
+
+Fixpoint spec_rm_opts (opts : list wopt) : mask :=
+  match opts with
+  | [] => None
+  | o :: r =>
+      if existsb is_reset_opt r then spec_rm_opts r else
+      match o with OResetMask m => m | _ => spec_rm_opts r end
+  end.
+
+Definition spec_weff_opts (resw : mask) (opts : list wopt) : mask :=
+  if existsb is_allw_opt opts then None else
+  match resw with None => None | Some w => Some (w ++ flat_map more_writable_paths opts) end.
+
 Definition C05_ok (c : c05case) : bool :=
   match c with
   | KMerge ty um wm rm mtag rtag dst src code obs =>
@@ -180,17 +218,37 @@ Definition C05_ok (c : c05case) : bool :=
       | SRet (Some r) next =>
           (code =? code_ok) && veq next r && write_ok the_schema ty um weff rm stored written r
       end
+  | KOpts ty resw opts mtag rtag stored written code obs =>
+      let weff := spec_weff_opts resw opts in
+      let um := spec_um_opts opts in
+      let rm := spec_rm_opts opts in
+      (code =? expected_code um weff mtag rtag rm) &&
+      match obs with
+      | SPanic => false
+      | SRet None next => negb (code =? code_ok) && veq next stored
+      | SRet (Some r) next =>
+          (code =? code_ok) && veq next r && write_ok the_schema ty um weff rm stored written r
+      end
   end.
 
-(* hypotheses of the theorems: both messages are trees of the type, the configured writable masks and
-   (for an accepted write) all masks are valid for it *)
+(* hypotheses of the theorems: both messages are trees of the type and the configured writable masks are
+   valid for it AFTER NORMALIZATION (Merge only ever uses a normalized copy: an invalid path below a valid
+   path of the writable masks is dropped there, theorem [merge_norm_writable]).  The request masks (update,
+   extra update paths, reset) carry no hypothesis: an invalid path in them must be rejected.  With a nil
+   update mask WithMoreUpdateMask ignores its argument, valid or not. *)
+Definition norm_valid (sch : schema) (ty : string) (m : mask) : bool :=
+  match m with None => true | Some ps => fm_valid sch ty (normalize_paths ps) end.
+
 Definition C05_guard (c : c05case) : bool :=
   match c with
   | KMerge ty um wm rm _ _ dst src _ _ =>
-      conforms the_schema ty dst && conforms the_schema ty src && valid_or the_schema ty wm
+      conforms the_schema ty dst && conforms the_schema ty src && norm_valid the_schema ty wm
   | KSet ty allw resw more um moreu rm _ _ stored written _ _ =>
       conforms the_schema ty stored && conforms the_schema ty written
-      && valid_or the_schema ty resw && valid_or the_schema ty more && valid_or the_schema ty moreu
+      && norm_valid the_schema ty (spec_union allw resw more)
+  | KOpts ty resw opts _ _ stored written _ _ =>
+      conforms the_schema ty stored && conforms the_schema ty written
+      && norm_valid the_schema ty (spec_weff_opts resw opts)
   end.
 
 Definition judge (c : c05case) : Z :=
